@@ -45,6 +45,7 @@ type mEntry struct {
 	raw    []byte // actual bytes when known (initial files)
 	broken bool   // compressed but corrupt/truncated
 	mode   uint32
+	link   string // symbolic link to this name in the same directory (content fields describe the target)
 }
 
 type mDir map[string]*mEntry
@@ -185,6 +186,16 @@ func c15Model(argv []string, d mDir) (nd mDir, exitNonZero bool, stdout []*mEntr
 			exitNonZero = true
 			continue
 		}
+		if e.link != "" {
+			// a symbolic link is no regular file: skipped unless -f is given, in which case the
+			// file it points to is processed under the link's name (and the link, not the file, removed)
+			t, ok := nd[e.link]
+			if !o.force || !ok {
+				exitNonZero = true
+				continue
+			}
+			e = t
+		}
 		var out *mEntry
 		target := ""
 		if !o.decompress {
@@ -307,6 +318,16 @@ func c15Case(r *core.Run, p C15Case, gxz string) {
 	defer os.RemoveAll(dir)
 	model := mDir{}
 	for _, f := range p.Files {
+		if strings.HasPrefix(f.Content, "symlink:") {
+			t := f.Content[len("symlink:"):]
+			te := *model[t] // the target comes first in the list
+			te.link = t
+			model[f.Name] = &te
+			if err := os.Symlink(t, filepath.Join(dir, f.Name)); err != nil {
+				panic(err)
+			}
+			continue
+		}
 		raw, e := c15Content(f.Content)
 		e.mode = f.Mode
 		ee := e
@@ -363,6 +384,11 @@ func c15Case(r *core.Run, p C15Case, gxz string) {
 				continue
 			}
 			switch {
+			case e.link != "":
+				if string(b) != "symlink:"+e.link {
+					problems = append(problems, fmt.Sprintf("%q: no longer a symbolic link to %q", name, e.link))
+				}
+				continue
 			case e.format == "" || (e.raw != nil && bytes.Equal(b, e.raw)):
 				if !bytes.Equal(b, e.raw) {
 					problems = append(problems, fmt.Sprintf("%q: content differs (%d bytes, want %d)", name, len(b), len(e.raw)))
@@ -682,6 +708,37 @@ func runC15(r *core.Run) {
 					}
 				}
 			}
+		}
+	}
+	// 3b. several operands after "--": everything after it is a file name, also names that look like options
+	dashy := []string{"-a.txt", "-k", "--keep", "plain", "-c", "-d"}
+	for _, n1 := range dashy {
+		for _, n2 := range dashy {
+			if n1 == n2 {
+				continue
+			}
+			for _, opts := range [][]string{{}, {"-k"}} {
+				add([]c15File{pf(n1), pf(n2)}, append(append([]string{}, opts...), "--", n1, n2))
+			}
+			add([]c15File{pf(n1), pf(n2), pf("third")}, []string{"--", n1, "third", n2})
+		}
+	}
+	for _, n1 := range []string{"-d.xz", "-k.xz", "x.xz", "--force.xz"} {
+		for _, n2 := range []string{"-d.xz", "-k.xz", "x.xz", "--force.xz"} {
+			if n1 != n2 {
+				add([]c15File{{n1, "xz:small", 0o644}, {n2, "xz:small", 0o600}}, []string{"-d", "--", n1, n2})
+			}
+		}
+	}
+	// 3c. symbolic links: skipped without -f; with -f the file behind the link is processed under the
+	// link's name, the output gets (at most) that file's permission bits, the link is removed
+	for _, mode := range []uint32{0o600, 0o644, 0o400} {
+		for _, opts := range [][]string{{}, {"-f"}, {"-kf"}, {"-c"}, {"-cf"}, {"-F", "lzma", "-f"}} {
+			add([]c15File{{"data", "plain:small", mode}, {"link", "symlink:data", 0}}, append(append([]string{}, opts...), "link"))
+			add([]c15File{{"data", "plain:small", mode}, {"link", "symlink:data", 0}}, append(append([]string{}, opts...), "link", "data"))
+		}
+		for _, opts := range [][]string{{"-d"}, {"-df"}, {"-dkf"}, {"-dc"}, {"-dcf"}} {
+			add([]c15File{{"data.xz", "xz:small", mode}, {"link.xz", "symlink:data.xz", 0}}, append(append([]string{}, opts...), "link.xz"))
 		}
 	}
 	// 5. two-file invocations: every combination of member kinds
